@@ -12,7 +12,7 @@ def jflags (j : Json) : Flags :=
   let f := (jobj? j "flags").getD (Json.mkObj [])
   { generateOnly := jbool f "generate_only", multiple := jbool f "multiple",
     keepGoing := (f.getObjValAs? Nat "keep_going").toOption.getD 1,
-    jobs := (f.getObjValAs? Nat "jobs").toOption, verbose := jnat f "verbose" }
+    jobs := (f.getObjValAs? Nat "jobs").toOption, verbose := jnat f "verbose", compileCommands := jbool f "compile_commands" }
 
 /-- `ninja_rc`: a number (exit code) or the string "kill" (killed by a signal: no exit code) -/
 def jninjaRc (j : Json) : Nat :=
@@ -53,6 +53,6 @@ def handleRun (j : Json) : Json :=
           | some t => some (t, jstrs j "task_args")
           | none => none
         let markers := jstrs j "fail_markers"
-        let (sp, rc) := runBuild st args (jflags j) r.builds task (jninjaRc j)
+        let (sp, rc) := runBuildCC st args (jflags j) r.builds task (jninjaRc j)
           (fun cmd => markers.any (fun m => containsSub cmd m))
         Json.mkObj [("ok", Json.mkObj [("spawns", Json.arr (sp.map spawnJ).toArray), ("rc", rc)])]
